@@ -38,6 +38,8 @@ def run(ctx):
         # existence reports over datasets that share artifacts (multi-dataset ingests, zips, direct ingests)
         from vlib import arthist
         arthist.histories(ctx, False, tmp, mode="C10")
+        chained_existence(ctx, tmp)
+        big_removal(ctx, tmp)
 
 
 def correspondence(ctx, model_ok, tmp):
@@ -275,6 +277,94 @@ def correspondence(ctx, model_ok, tmp):
         ctx.extra["correspondence_disagreements"] = nd
     else:
         ctx.notes.append("model not built: correspondence skipped, implementation searched with the oracle only")
+
+
+def chained_existence(ctx, tmp):
+    """Existence reports on a ChainedDatastore whose children disagree about a dataset (one child's artifact deleted externally,
+    one child never had it): the bulk reports must say what the single-dataset reports say, and both the truth."""
+    from lsst.daf.butler import Butler, Config, DatasetExistence, DatasetType
+
+    def viol(what, key, replay):
+        ctx.violations.append(core.Violation(what=what, key=key, replay=replay))
+
+    rng = ctx.rng
+    root = os.path.join(tmp, "chained")
+    c = Config()
+    c["datastore", "cls"] = "lsst.daf.butler.datastores.chainedDatastore.ChainedDatastore"
+    c["datastore", "datastores"] = [
+        {"datastore": {"cls": "lsst.daf.butler.datastores.fileDatastore.FileDatastore", "root": "<butlerRoot>/fs1", "records": {"table": "fs1_records"}}},
+        {"datastore": {"cls": "lsst.daf.butler.datastores.fileDatastore.FileDatastore", "root": "<butlerRoot>/fs2", "records": {"table": "fs2_records"}}},
+    ]
+    Butler.makeRepo(root, config=c)
+    b = Butler.from_config(root, writeable=True, run="r1")
+    repo.basic_dimensions(b, detectors=tuple(range(1, 13)))
+    dt = DatasetType("dt", {"instrument", "detector"}, "StructuredDataDict", universe=b.dimensions)
+    b.registry.registerDatasetType(dt)
+    refs = [b.put({"n": i}, dt, instrument="I", detector=i) for i in range(1, 13)]
+    E = DatasetExistence
+    truth = {}
+    for i, ref in enumerate(refs):
+        paths = sorted(os.path.join(dp, f) for dp, _, fs in os.walk(root) for f in fs if f == f"dt_I_d{i + 1}_r1.yaml")
+        if len(paths) != 2:
+            ctx.broken.append(f"correspondence: a put into the two-child chain wrote {len(paths)} artifacts")
+            return
+        how = rng.choice(["both", "first-gone", "second-gone", "all-gone", "both"])
+        if how in ("first-gone", "all-gone") and os.path.exists(paths[0]):
+            os.remove(paths[0])
+        if how in ("second-gone", "all-gone") and os.path.exists(paths[1]):
+            os.remove(paths[1])
+        truth[ref] = any(os.path.exists(p) for p in paths)
+        ctx.count(f"chained-existence:{how}")
+    many = b._exists_many(refs, full_check=True)
+    stored_many = b.stored_many(refs)
+    for ref in refs:
+        ex = b.exists(ref, full_check=True)
+        st = b.stored(ref)
+        ctx.evaluations += 1
+        problems = []
+        has_art = (ex & E._ARTIFACT) == E._ARTIFACT
+        if has_art != truth[ref] or st != truth[ref]:
+            problems.append(f"exists()={ex!r}, stored()={st}, an artifact is {'present' if truth[ref] else 'absent'} in the chain")
+        if many[ref] != ex:
+            problems.append(f"_exists_many says {many[ref]!r}, exists says {ex!r}")
+        if stored_many[ref] != st:
+            problems.append(f"stored_many says {stored_many[ref]}, stored says {st}")
+        if problems:
+            viol(f"chained datastore, detector {ref.dataId['detector']}: " + "; ".join(problems), f"chained-existence:{ref.dataId['detector']}",
+                 {"kind": "chained-existence", "detector": ref.dataId["detector"]})
+    ctx.nontrivial.add("chained-existence")
+
+
+def big_removal(ctx, tmp):
+    """One removal call over more than a thousand datasets (the registry deletes in batches): removed means all of them."""
+    from lsst.daf.butler import CollectionType, DatasetType
+
+    def viol(what, key, replay):
+        ctx.violations.append(core.Violation(what=what, key=key, replay=replay))
+
+    N = 1003
+    b = repo.make_butler(os.path.join(tmp, "big"), run="r1")
+    b.registry.insertDimensionData("instrument", {"name": "I"})
+    b.registry.insertDimensionData("detector", *[{"instrument": "I", "id": i, "full_name": f"d{i}"} for i in range(N + 3)])
+    dt = DatasetType("dt", {"instrument", "detector"}, "StructuredDataDict", universe=b.dimensions)
+    b.registry.registerDatasetType(dt)
+    b.registry.registerCollection("bigtag", CollectionType.TAGGED)
+    refs = b.registry.insertDatasets(dt, [{"instrument": "I", "detector": i} for i in range(N)], run="r1")
+    keep = b.registry.insertDatasets(dt, [{"instrument": "I", "detector": N + 1}], run="r1")
+    b.registry.associate("bigtag", list(refs) + list(keep))
+    b.pruneDatasets(refs, disassociate=True, tags=["bigtag"], unstore=False, purge=False)
+    left = {r.id for r in b.registry.queryDatasets(dt, collections=["bigtag"])}
+    ctx.evaluations += 1
+    if left != {keep[0].id}:
+        viol(f"pruneDatasets(disassociate) of {N} datasets in one call left {len(left & {r.id for r in refs})} of them in the TAGGED collection "
+             f"(and {'kept' if keep[0].id in left else 'lost'} the untargeted one)", "big-disassociate", {"kind": "big-removal", "n": N})
+    b.pruneDatasets(refs, purge=True, unstore=True, disassociate=True)
+    left = {r.id for r in b.registry.queryDatasets(dt, collections=["r1"])}
+    ctx.evaluations += 1
+    if left != {keep[0].id}:
+        viol(f"pruneDatasets(purge) of {N} datasets in one call left {len(left & {r.id for r in refs})} of them registered "
+             f"(and {'kept' if keep[0].id in left else 'lost'} the untargeted one)", "big-purge", {"kind": "big-removal", "n": N})
+    ctx.nontrivial.add("big-removal")
 
 
 def replay(ctx, content):
